@@ -225,14 +225,25 @@ def parse_collected_tasks_with_task_marker(
     all_names = {i[0] for i in parsed_tasks}
     duplicated_names = find_duplicates([i[0] for i in parsed_tasks])
 
-    collected_tasks = {}
+    collected_tasks: dict[str, Callable[..., Any]] = {}
     for name in all_names:
         if name in duplicated_names:
             selected_tasks = [i for i in parsed_tasks if i[0] == name]
             names_to_functions = _generate_ids_for_tasks(selected_tasks)
-            collected_tasks.update(names_to_functions)
         else:
-            collected_tasks[name] = next(i[1] for i in parsed_tasks if i[0] == name)
+            names_to_functions = {
+                name: next(i[1] for i in parsed_tasks if i[0] == name)
+            }
+
+        clashing_names = collected_tasks.keys() & names_to_functions.keys()
+        if clashing_names:
+            msg = (
+                f"The task names {sorted(clashing_names)!r} are not unique. The id "
+                "generated for a repeated task is the same as the name or id of "
+                "another task in the same module."
+            )
+            raise ValueError(msg)
+        collected_tasks.update(names_to_functions)
 
     return collected_tasks
 
